@@ -141,7 +141,7 @@ def gen_case(rng, max_plates=7, n_max=16):
         if len(raw["snames"]) >= min(npl + 2, n_max):
             break
     if raw["mask"] is not None:
-        st = {p: rng.random() < 0.3 for p in set(raw["pnames"])}
+        st = {p: rng.random() < 0.3 for p in sorted(set(raw["pnames"]))}
         raw["mask"] = [st[p] for p in raw["pnames"]]
     # mask flavour: mostly random per plate, sometimes all unobserved / all observed / no observations at all
     r = rng.random()
@@ -253,8 +253,9 @@ def check_inputs(res, case, scr, batch, n, idx, handed):
             if union[i]:
                 first.setdefault(cond[i], i)
         if sorted(first.values()) != kept:
-            res.fail("kept experiment is not the first of its condition", dict(case, n=n, idx=idx), {"plate": k, "kept": kept}, sorted(first.values()),
-                     signature="C06:condition-first")
+            # which experiment represents a condition is not part of the property (any one will do): not a violation.
+            # The Lean model keeps the first, so the correspondence run reports such a change as a broken tie.
+            res.count("condition.kept-not-first")
 
 
 def select_oracle(res, case, scr, batch, table, allowed, got, what, extra):
@@ -352,7 +353,8 @@ def run_case(ctx, res, env, case, lines, expect, meta, light=False):
             res.fail("plates scored over all chunk indices != unobserved plates outside the batch, each once", dict(case, n=n),
                      sorted(handed_all), sorted(cands), signature="C06:cover")
         if sizes and max(sizes) - min(sizes) > 1:
-            res.fail("chunk sizes differ by more than one", dict(case, n=n), sizes, "balanced", signature="C06:balance")
+            # balance is a property of np.array_split that the model proves, not a clause of C06: counted, not a violation
+            res.count("chunks.unbalanced")
         # ---- orders
         if n <= case.get("all_orders_upto", 0):
             orders = list(itertools.permutations(range(n)))
@@ -406,6 +408,9 @@ def run_case(ctx, res, env, case, lines, expect, meta, light=False):
                 meta.append(("pipeline", dict(case, n=n, order=list(order), policy=pol)))
             if light and oi >= 1:
                 break
+        # ---- stale score files: scored for an EARLIER batch (a prefix of the current one), selection with the current batch
+        if case.get("stale", False) and n == case["ns"][-1] and batch and total:
+            run_stale(ctx, res, env, case, scr, batch, table, allowed, n, orders[-1], lines, expect, meta, ttok, rtok, use_cli)
         # ---- the command line path (same model line: the model's pipeline *is* the CLI composition)
         if use_cli:
             run_cli(ctx, res, env, case, scr, raw, batch, table, total, allowed, n, orders[-1], lines, expect, meta, ttok, rtok)
@@ -443,6 +448,82 @@ def run_case(ctx, res, env, case, lines, expect, meta, light=False):
                 expect.append(out)
                 meta.append(("chunk", dict(case, n=n, idx=idx, scorer=kind)))
     return cands
+
+
+def run_stale(ctx, res, env, case, scr, batch, table, allowed, n, order, lines, expect, meta, ttok, rtok, use_cli):
+    """chunk files computed when the batch was smaller (so they still list plates that are in the batch NOW), combined in
+    `order`, selection with the current batch: the result must still be unobserved, outside the current batch, allowed, minimal"""
+    from batchie.scoring.main import score_chunk, ChunkedScoresHolder, select_next_plate
+    from batchie.cli import select_next_plate as snp_cli
+    Scorer, Policy = plugins()
+    pids, mask, sids, tids, plates, observed = facts(scr)
+    known = [b for b in batch if b in plates]
+    cut = len(batch) - 1 if case["seed"] % 2 == 0 else 0
+    old_batch = list(batch[:cut])
+    if old_batch and not any(b in plates for b in old_batch):
+        return
+    files, holders = [], []
+    try:
+        for idx in range(n):
+            h = score_chunk(scorer=Scorer(), thetas=None, screen=scr, distance_matrix=None, rng=np.random.default_rng(0),
+                            n_chunks=n, chunk_index=idx, batch_plate_ids=list(old_batch))
+            fn = env.path("stale") + ".h5"
+            h.save_h5(fn)
+            files.append(fn)
+            holders.append(ChunkedScoresHolder.load_h5(fn))
+    except Exception as e:   # noqa: BLE001
+        res.fail("score_chunk raised on a valid request", dict(case, n=n, stale_batch=old_batch), "%s: %s" % (type(e).__name__, e), "a holder",
+                 signature="C06:score-raises")
+        return
+    res.count("stale.runs")
+    if any(b in expected_candidates(scr, old_batch) for b in known):
+        res.count("stale.files-list-a-batch-plate")
+    for pol in ([None, allowed] if allowed is not None else [None]):
+        Policy.allowed = set(pol) if pol is not None else set()
+        extra = {"n": n, "order": list(order), "policy": pol, "stale_batch": old_batch}
+        comb = ChunkedScoresHolder.concat([copy.deepcopy(holders[i]) for i in order])
+        ctext = "ok " + show_holder(comb)
+        try:
+            sel = select_next_plate(scores=comb, screen=scr, policy=(Policy() if pol is not None else None),
+                                    batch_plate_ids=list(batch), rng=np.random.default_rng(0))
+            got_id = None if sel is None else int(sel.plate_id)
+            stext = "ok " + ("-1" if got_id is None else str(got_id))
+            select_oracle(res, case, scr, batch, table, pol, got_id, "select_next_plate on stale score files", extra)
+        except Exception as e:   # noqa: BLE001
+            stext = S.err_tok(e)
+            res.fail("select_next_plate raised on stale score files", dict(case, **extra), "%s: %s" % (type(e).__name__, e), "a plate or None",
+                     signature="C06:select-raises")
+        res.evaluations += 1
+        lines.append("pipeline2 %s %s %d %s %s %s %s" % (ids_tok(old_batch), ids_tok(batch), n, ids_tok(order), ttok, "none" if pol is None else ids_tok(pol), rtok))
+        expect.append(ctext + " sel=" + stext)
+        meta.append(("pipeline-stale", dict(case, **extra)))
+        if use_cli:
+            data = env.path("screen") + ".h5"
+            scr.save_h5(data)
+            outp = env.path("selected") + ".txt"
+            argv = ["select_next_plate", "--data", data, "--scores"] + [files[i] for i in order] + ["--output", outp, "--batch-plate-id"] + [str(b) for b in batch]
+            if pol is not None:
+                argv += ["--policy", "VerifAllowedPolicy"]
+            try:
+                run_main(snp_cli, argv)
+                with open(outp) as f:
+                    content = f.read()
+                try:
+                    got_id = int(content)
+                except ValueError:
+                    got_id = "unparsable:" + content
+                select_oracle(res, case, scr, batch, table, pol, None if got_id == -1 else got_id, "select_next_plate CLI on stale score files",
+                              dict(extra, via="cli"))
+                cl = "ok " + content
+            except Exception as e:   # noqa: BLE001
+                cl = S.err_tok(e)
+                res.fail("select_next_plate CLI raised on stale score files", dict(case, via="cli", **extra), "%s: %s" % (type(e).__name__, e),
+                         "a plate id or -1", signature="C06:select-raises")
+            res.evaluations += 1
+            res.count("stale.cli")
+            lines.append("pipeline2 %s %s %d %s %s %s %s" % (ids_tok(old_batch), ids_tok(batch), n, ids_tok(order), ttok, "none" if pol is None else ids_tok(pol), rtok))
+            expect.append(ctext + " sel=" + cl)
+            meta.append(("pipeline-stale-cli", dict(case, via="cli", **extra)))
 
 
 def run_cli(ctx, res, env, case, scr, raw, batch, table, total, allowed, n, order, lines, expect, meta, ttok, rtok):
@@ -529,7 +610,7 @@ def make_case(rng, raw, seed, tier, exhaustive_orders, cli_p, batch=None):
     else:
         ns = list(range(1, nmax + 1))
     return {"raw": raw, "batch": batch, "table": {str(k): enc_score(v) for k, v in table.items()}, "total": total, "allowed": allowed,
-            "ns": ns, "all_orders_upto": exhaustive_orders, "n_orders": 2, "cli": rng.random() < cli_p, "shipped": rng.random() < 0.5, "seed": seed}
+            "ns": ns, "all_orders_upto": exhaustive_orders, "n_orders": 2, "cli": rng.random() < cli_p, "shipped": rng.random() < 0.5, "seed": seed, "stale": True}
 
 
 def describe(res, case, cands):
@@ -574,6 +655,35 @@ def run(ctx, res):
                             "plate_names": raw["pnames"], "mask": raw["mask"], "candidates": cands})
             if len(lines) > 4000:
                 flush(ctx, res, lines, expect, meta)
+        # ---- wide screens: more than 127 / 255 plates, one or two experiments per plate, so that plate ids do not fit a byte
+        #      (a narrower id dtype in the holder or the file would wrap them) and chunks hold many plates
+        wrng = ctx.subrng("c06-wide")
+        for P in ([150] if ctx.tier == "quick" else [150, 300]):
+            tn, td, sn, pn = [], [], [], []
+            for p_ in range(P):
+                for _ in range(1 if wrng.random() < 0.7 else 2):
+                    tn.append([wrng.choice(["a", "b", "c"]), wrng.choice(["a", "b", "control"])])
+                    td.append([wrng.choice([1.0, 2.0]), wrng.choice([1.0, 0.5])])
+                    sn.append(wrng.choice(["s", "t"]))
+                    pn.append("p%04d" % p_)
+            obsd = {p_: wrng.random() < 0.3 for p_ in range(P)}
+            raw = dict(ctrl="control", arity=2, tnames=tn, tdoses=td, snames=sn, pnames=pn, obs=[0.5] * len(pn),
+                       mask=[obsd[int(x[1:])] for x in pn], tmap=None, smap=None)
+            unobs = [p_ for p_ in range(P) if not obsd[p_]]
+            hi = [p_ for p_ in unobs if p_ >= 128]
+            batch = wrng.sample(hi, 2)
+            table = {p_: wrng.choice(SCORE_POOL[3:]) for p_ in range(P)}
+            # the minimum sits on plates with large ids, twice (a tie)
+            for p_ in wrng.sample([x for x in hi if x not in batch], 2):
+                table[p_] = float("-inf")
+            allowed = sorted(wrng.sample(range(P), P // 2) + [x for x in hi if table[x] == float("-inf")][:1])
+            case = {"raw": raw, "batch": batch, "table": {str(k): enc_score(v) for k, v in table.items()}, "total": True, "allowed": sorted(set(allowed)),
+                    "ns": [1, 4] if ctx.tier == "quick" else [1, 4, len(unobs) + 1], "all_orders_upto": 0, "n_orders": 1, "cli": ctx.tier != "quick" or P == 150,
+                    "shipped": False, "seed": P, "stale": True}
+            cands = run_case(ctx, res, env, case, lines, expect, meta, light=False)
+            res.count("wide.P%d" % P)
+            describe(res, case, cands)
+            flush(ctx, res, lines, expect, meta)
         # ---- exhaustive small scope (thorough / search): fixed screens with P plates, every (observed?, in batch?) assignment
         if ctx.tier == "thorough" or ctx.mode == "search":
             erng = ctx.subrng("c06-exh")
